@@ -412,6 +412,42 @@ static void iauth_xquery_x_unlinked(const char service[], const char routing[],
     iauth_xquery_x_reply(service, routing, NULL);
 }
 
+/** Give up \a req's claims on the services it still awaits.
+ *
+ * The request is about to be destroyed; a service that a reload has
+ * dropped must not be kept around for it.
+ */
+static void iauth_xquery_release(struct iauth_request *req)
+{
+    struct iauth_xquery_client *cli;
+    struct iauth_xquery_service *srv;
+    unsigned int ii;
+
+    cli = iauth_xquery_find_client(req);
+    if (!cli)
+        return;
+
+    for (ii = 0; ii < iauth_xquery_services.used; ++ii) {
+        if (!(cli->ref_mask & (1u << ii)))
+            continue;
+        srv = iauth_xquery_services.vec[ii];
+        if ((srv != NULL) && (srv->refs > 0) && (--srv->refs == 0))
+            iauth_xquery_unref(ii);
+    }
+    cli->ref_mask = 0;
+}
+
+static void iauth_xquery_disconnect(struct iauth_request *req)
+{
+    iauth_xquery_release(req);
+}
+
+static void iauth_xquery_registered(struct iauth_request *req,
+                                    UNUSED_ARG(int from_ircd))
+{
+    iauth_xquery_release(req);
+}
+
 static void iauth_xquery_new_client(struct iauth_request *req)
 {
     struct iauth_xquery_client *cli;
@@ -494,7 +530,8 @@ static void iauth_xquery_check(struct iauth_request *req,
                           cli->password);
 
         srv->queries++;
-        srv->refs++;
+        if (!(cli->ref_mask & (1u << ii)))
+            srv->refs++;
         if (!cli->ref_mask)
             req->soft_holds++;
         cli->ref_mask |= 1u << ii;
@@ -607,8 +644,9 @@ static void iauth_xquery_password(struct iauth_request *req,
                 log_message(iauth_xquery_log, LOG_DEBUG,
                     "adding soft hold on %s for MORE %s", routing, srv->name);
             }
+            if (!(cli->ref_mask & (1u << ii)))
+                srv->refs++;
             cli->ref_mask |= 1u << ii;
-            srv->refs++;
         }
     }
 }
@@ -620,11 +658,13 @@ static void iauth_xquery_user_info(struct iauth_request *req)
 
 static struct iauth_module iauth_xquery = {
     .owner = "iauth_xquery",
+    .disconnect = iauth_xquery_disconnect,
     .field_change = iauth_xquery_check,
     .get_config = iauth_xquery_report_config,
     .get_stats = iauth_xquery_report_stats,
     .new_client = iauth_xquery_new_client,
     .password = iauth_xquery_password,
+    .registered = iauth_xquery_registered,
     .user_info = iauth_xquery_user_info,
     .x_reply = iauth_xquery_x_reply,
     .x_unlinked = iauth_xquery_x_unlinked,
